@@ -98,6 +98,15 @@ func ivStr(iv [16]byte) string {
 	return fmt.Sprintf("%d:%s", binary.BigEndian.Uint32(iv[:4]), hex.EncodeToString(iv[4:]))
 }
 
+// every base IV a SetSymmetricKey call drew during this engine run, as read back from the wire
+// (C12: "fresh and distinct for every direction and session")
+type drawnIV struct {
+	iv    [16]byte
+	where string
+}
+
+var drawnIVs []drawnIV
+
 // describe renders a frame the endpoint just emitted; protected frames are opened by refcodec.
 func (w *sworld) describe(e *sep, f refcodec.Frame, enc bool) string {
 	if !enc {
@@ -118,6 +127,9 @@ func (w *sworld) describe(e *sep, f refcodec.Frame, enc bool) string {
 		e.iv = e.dir.BaseIV
 		e.ivKnown = true
 		ivs = "iv=" + ivStr(e.iv)
+		if e.keyLine >= 0 { // the IV a SetSymmetricKey call drew (not one restored from a blob)
+			drawnIVs = append(drawnIVs, drawnIV{iv: e.iv, where: fmt.Sprintf("IV draw #%d of the run: endpoint %s, key installed at op %d", len(drawnIVs)+1, e.name, e.keyLine)})
+		}
 	}
 	aad := "aad=H"
 	if o.FirstAAD {
